@@ -120,7 +120,7 @@ def mkCatalog (i : CatalogIn) : Catalog :=
     | .none => ([], projects0)
     | .list ps => ps.foldl (predStepList pns) ([], projects0)
     | .legacy ps => ps.foldl (predStepLegacy pns) ([], projects0)
-  { integrations := s0.1, projects := s1.2, predictors := s1.1, defaultNs := i.defaultNs }
+  { integrations := s0.1, projects := s1.2, predictors := s1.1, defaultNs := i.defaultNs.map lower }
 
 /-! ## The two resolvers -/
 
@@ -157,7 +157,14 @@ def agreeClass (c : Catalog) (parts : List Name) : Bool :=
   | [p] => decide (p ∉ c.databases)
   | p :: _ :: _ => decide (lower p = p)
 
-/-- the default namespace, when there is one, is a known database written in lower case -/
+/-- the default namespace, when there is one, is a known database -/
+def defaultKnown (c : Catalog) : Bool :=
+  match c.defaultNs with
+  | none => true
+  | some d => decide (d ∈ c.databases)
+
+/-- the default namespace, when there is one, is a known database written in lower case
+(the second half holds for every catalog the constructor builds since 10d49ed: `defaultOk_mkCatalog`) -/
 def defaultOk (c : Catalog) : Bool :=
   match c.defaultNs with
   | none => true
